@@ -221,22 +221,25 @@ fn track(i: u32, ts: u32) -> MTrack {
 
 /// family (a): chunk k's offset = 2^32 + d
 pub fn family_a() -> impl Strategy<Value = Case> {
-    (0u32..5, -3i64..=3, 0usize..4, prop::collection::vec(prop_oneof![1 => Just(0u32), 4 => 1u32..40], 5), any::<bool>()).prop_map(|(kind, d, k, sizes, two)| {
+    (0u32..5, -3i64..=3, 0usize..4, prop::collection::vec(prop_oneof![1 => Just(0u32), 4 => 1u32..40], 5), any::<bool>(), prop::bool::weighted(0.3)).prop_map(|(kind, d, k, sizes, two, pending)| {
         // one sample per chunk: duration = timescale
         let ts = 10u32;
+        let two = two || pending;
         let mut tracks = vec![track(kind, ts)];
         if two {
             tracks.push(track(kind + 1, ts));
         }
         let mut ops = Vec::new();
         for (i, s) in sizes.iter().enumerate() {
-            ops.push(BOp { track: 1 + (two && i % 2 == 1) as u32, size: *s, fill: 1 + i as u8, dur: ts, cts: 0, sync: true });
+            // pending: durations too short to complete a chunk, so both tracks still hold one at
+            // write_end and the second track's chunk offset is the one that lands at 2^32 + d
+            ops.push(BOp { track: 1 + (two && i % 2 == 1) as u32, size: *s, fill: 1 + i as u8, dur: if pending { 1 } else { ts }, cts: 0, sync: true });
         }
         // ftyp = 8 + 8 + 4 = 20 bytes; mdat header + wide = 16
-        let before: u64 = sizes[..k].iter().map(|x| *x as u64).sum();
+        let before: u64 = if pending { sizes.iter().step_by(2).map(|x| *x as u64).sum() } else { sizes[..k].iter().map(|x| *x as u64).sum() };
         let target = ((1i64 << 32) + d) as u64;
         let start_pos = target - 20 - 16 - before;
-        Case { family: "a:chunk-offset-at-2^32".into(), start_pos, timescale: 1000, tracks, ops }
+        Case { family: if pending { "a:chunk-offset-at-2^32(chunks flushed by write_end)".into() } else { "a:chunk-offset-at-2^32".into() }, start_pos, timescale: 1000, tracks, ops }
     })
 }
 
